@@ -1,7 +1,7 @@
 import QmcModel.RvbRegionOK
-import QmcProofs.RvbReverse
+import QmcProofs.RvbKernel
 
-/-! Soundness of the executable decider `regionOKb` for `RegionOK`. -/
+/-! Soundness of the executable deciders `regionOKb` for `RegionOK` and `moveOKb` for `MoveOK`. -/
 
 namespace Qmc.Rvb.Kernel
 open Qmc Qmc.Rvb Qmc.Rvb.ExtractFlip
@@ -53,5 +53,15 @@ theorem regionOKb_sound {E : Ising} {c : Config} {R : Region} (h : regionOKb E c
         rw [← List.contains_iff_mem] at this
         rw [this] at hno; cases hno.2
     · exact hyes
+
+theorem isingHamM_eq (E : Ising) : isingHamM E = isingHam E := rfl
+
+/-- **the decider for the kernel's transition condition is sound** -/
+theorem moveOKb_sound {E : Ising} {N : Nat} {R : Region} {c c' : Config} (h : moveOKb E N R c c' = true) :
+    MoveOK E N R c c' := by
+  unfold moveOKb at h
+  simp only [Bool.and_eq_true, beq_iff_eq, decide_eq_true_eq, Bool.not_eq_true'] at h
+  obtain ⟨⟨⟨⟨⟨⟨h1, h2⟩, h3⟩, h4⟩, h5⟩, h6⟩, h7⟩ := h
+  exact ⟨isRvbMove_sound h1, ⟨h2, h3, (legalB_iff _ _).1 h4⟩, regionOKb_sound h5, h6, h7⟩
 
 end Qmc.Rvb.Kernel
